@@ -21,6 +21,7 @@ import (
 // or characters), --ends, --ignore-case, --ignore-gaps, --ignore-n, --reverse ("not functional
 // with --char GAP and --char MAJ"), --positions / --positions-rm (0-based, one per line).
 // The alphabet is detected from the file: a protein file must hold one of Q E I L F P Z.
+// --ignore-n applies to every --char, GAP included (clean.md: "For both commands ... --ignore-n").
 // Undocumented refusals (accepted, counted as ambiguous): --ignore-gaps with a character set
 // holding '-', --ignore-n with a character set holding N or n, a --char of several characters
 // for `clean seqs`.
@@ -200,7 +201,9 @@ func TestCLI(t *testing.T) {
 			sc := siteCase{Alpha: c.Alpha, Rows: c.Rows, P: c.P, Q: c.Q, Ends: c.Ends}
 			switch {
 			case isGap:
-				sc.Op = "gap"
+				// gaps: the fraction of '-' among the rows not excluded by --ignore-n (fix 494299f:
+				// the flag is honoured with --char GAP too); --ignore-case has no effect on '-'
+				sc.Op, sc.Chars, sc.IN = "char", "-", c.IN
 			case c.Char == "MAJ":
 				sc.Op, sc.IG, sc.IN = "maj", c.IG, c.IN
 			default:
@@ -241,15 +244,6 @@ func TestCLI(t *testing.T) {
 				if sc.Op == "maj" && (c.P < 0 || c.P > c.Q) {
 					lit, _, _ := siteStates(sc, true)
 					open = verifySites(c.Rows, c.Ends, lit, first, last, kept, rm, got, -1) == nil
-				}
-				if sc.Op == "gap" && c.IN {
-					// `clean sites --char GAP --ignore-n`: the help says N is ignored "for the %
-					// computation", the command drops the flag for gaps (FINDINGS.md): the
-					// documented reading is accepted too
-					alt := sc
-					alt.Op, alt.Chars, alt.IN = "char", "-", true
-					as, _, _ := siteStates(alt, false)
-					open = verifySites(c.Rows, c.Ends, as, first, last, kept, rm, got, -1) == nil
 				}
 				if !open {
 					return o, fmt.Errorf("goalign %v: %v\n input : %s\n output: %s", args, e, gen.Show(rows), gen.Show(got))
